@@ -503,6 +503,21 @@ fn replay_sync(args: &[String]) {
                     // a natural false positive of a real filter (the model only knows the forced ones) taints the rest
                     // of the behaviour: the filter stays in the receiver's state and decides later messages
                     tainted = tainted || natural_fp;
+                    // ... also when it shows in a filter the peer holds in its sync state (the hash may not have existed
+                    // when the filter was sent): positives beyond the members the model recorded for that filter
+                    if let (Some(eh), Some(gh)) = (step["st"]["theirHave"].as_array(), got["st"]["theirHave"].as_array()) {
+                        for (ea, ga) in eh.iter().zip(gh.iter()) {
+                            if let (Some(el), Some(gl)) = (ea.as_array(), ga.as_array()) {
+                                for (e1, g1) in el.iter().zip(gl.iter()) {
+                                    let mem = jset(&e1["members"]);
+                                    let pos = jset(&g1["positives"]);
+                                    if mem.is_subset(&pos) && pos.len() > mem.len() {
+                                        tainted = true;
+                                    }
+                                }
+                            }
+                        }
+                    }
                     if !bad.is_empty() {
                         if tainted && !bad.iter().any(|b| b.contains("false-negative")) {
                             inconclusive += 1;
